@@ -4,4 +4,5 @@ for f in sorted(glob.glob('/verif/seeded/*/meta.json')):
     ok = d['suite_with'].startswith('144 passed') and d['demo_without']==0 and d['demo_with']!=0
     caught=[k for k,v in d['checks'].items() if v['exit']==1]
     broken=[k for k,v in d['checks'].items() if v['exit'] not in (0,1)]
-    print('%s-%s valid=%s caught_by=%s missed_by=%s %s' % (d['property'],d['variant'],ok,caught,[k for k,v in d['checks'].items() if v['exit']==0], ('BROKEN:'+str(broken)) if broken else ''))
+    import os
+    print('%s valid=%s caught_by=%s missed_by=%s %s' % (os.path.basename(os.path.dirname(f)),ok,caught,[k for k,v in d['checks'].items() if v['exit']==0], ('BROKEN:'+str(broken)) if broken else ''))
